@@ -32,6 +32,10 @@ static void ctx_dtor(void *data) {
     m_ctx_t *context = (m_ctx_t *)data;
     M_DEBUG("Ctx '%s' dtor.\n", context->name);
 
+    if (context->thpool) {
+        /* Tasks started while the context was not looping (or after its last loop): loop_stop() never saw this pool */
+        m_thpool_free(&context->thpool, false);
+    }
     deregister_ctx_src(context, &context->tick.src);
     m_map_free(&context->modules);
     poll_destroy(&context->ppriv);
